@@ -158,6 +158,19 @@ def rule_r2(ctx: Ctx) -> None:
 AMBIENT = ("random.", "numpy.random", "np.random", "time.", "os.urandom", "uuid.", "secrets.", "datetime.")
 
 
+def _time_allow_key(ctx: Ctx, f: FunctionInfo) -> str:
+    """the allow-list key for a clock read in *f*: recorders only log, so the clock may be read anywhere in a SearchRecorder
+    subclass (helper methods included) under the recorder's entry"""
+    top = f
+    while top.parent is not None:
+        top = top.parent
+    base = top.fullname
+    owner = ctx.res.enclosing_class(top)
+    if owner is not None and ctx.prog.is_subclass(owner, "geneticengine.evaluation.recorder.SearchRecorder") and owner.name == "CSVSearchRecorder":
+        return "geneticengine.evaluation.recorder:CSVSearchRecorder.__init__"
+    return base
+
+
 def rule_r3(ctx: Ctx) -> None:
     prog, res = ctx.prog, ctx.res
     n = 0
@@ -172,7 +185,7 @@ def rule_r3(ctx: Ctx) -> None:
                 continue  # belongs to a nested def, visited on its own
             t = res.resolve(f, c)
             nm = t.name if t.kind in ("external", "builtin") else ""
-            base = f.fullname.split(".<locals>")[0]
+            base = _time_allow_key(ctx, f)
             if t.kind == "external" and (nm.startswith(AMBIENT) and not nm.startswith("random.Random") or nm in ("time.monotonic_ns", "time.time", "time.monotonic", "time.perf_counter")):
                 n += 1
                 ok = base in TIME_ALLOW and nm.startswith("time.")
@@ -202,6 +215,7 @@ def rule_r3(ctx: Ctx) -> None:
                 if r and r.startswith("time."):
                     n += 1
                     base = f.fullname.split(".<locals>")[0]
+                    base = _time_allow_key(ctx, f)
                     ok = base in TIME_ALLOW
                     if ok:
                         ctx.accept("C08.R3", f.loc(c), TIME_ALLOW[base])
